@@ -5,7 +5,7 @@ import ast
 from .contracts import SpecEval
 from .terms import (And, Or, Not, Implies, Ite, Eq, asV, asB, asI, asS, mkB, mkI, mkS, TRUE, FALSE,
                     seq_of_terms)
-from .values import (Val, PyC, PyList, SymObj, Closure, BM, Exc, OutOfSubset, fresh_name)
+from .values import (Val, PyC, PyList, SymObj, SDict, Closure, BM, Exc, OutOfSubset, fresh_name)
 from .exprs import is_exc
 
 
@@ -269,6 +269,10 @@ class StmtMixin:
                     self.heap_store(s, idx.obj, asV(lo), asV(self.lift(v)))
                     out.append((s, None))
             return out
+        if isinstance(base, SDict) and base.term is None and isinstance(idx, PyC) and isinstance(idx.obj, str):
+            nd = base.copy()
+            nd.entries[idx.obj] = (TRUE, v)
+            return self.store_back(st, base_node, nd, node)
         if isinstance(base, PyList):
             raise OutOfSubset("item assignment on static list", node)
         if isinstance(base, dict):
@@ -559,7 +563,7 @@ class StmtMixin:
                     if sg is not None and sg[0] == "continue":
                         sg = None
                     nxt.append((s2, sg))
-            paths = nxt
+            paths = self.merge_fallthrough(nxt)
         return [(s, None if sig is not None and sig[0] == "break" else sig) for s, sig in paths]
 
     def assigned_names(self, stmts):
